@@ -280,6 +280,8 @@ int case_begin(const char* key, const char* fmt, ...) {
   vsnprintf(cur_desc, sizeof cur_desc, fmt, ap);
   va_end(ap);
   snprintf(cur_key, sizeof cur_key, "%s", key);
+  // mode "conc" (the ThreadSanitizer pass of a property): only the cases that run several threads
+  if (!strcmp(G.mode, "conc") && !strstr(key, "thread") && !strstr(key, "concurren")) return 0;
   uint64_t h = hash_bytes(cur_desc, strlen(cur_desc), hash_bytes(key, strlen(key), 7));
   if (G.only >= 0) {
     if (cur_idx != G.only) return 0;
